@@ -365,22 +365,62 @@ pub fn record_func(args: &[String]) {
     let nprog: usize = args[1].parse().unwrap();
     let mut out = Out::create(&args[2]);
     let mut r = Rng::new(seed);
+    let mut pr = Rng::new(seed ^ 0x5bd1_e995_9e37_79b9);   // the probe programs draw from their own stream: the random programs stay what they were
     let rig = Rig::new();
     let mut s = Summary::new();
     let (mut lines, mut emits, mut longest) = (0u64, 0u64, 0usize);
     let mut done = 0;
     while done < nprog {
-        let scoped = r.chance(1, 3);
+        let probe = done % 8 == 3;
+        let scoped = if probe { pr.chance(1, 3) } else { r.chance(1, 3) };
         let mut prog = vec![fline("fn", json!(scoped), false, 0)];
+        let fnend;
+        if probe {
+            // fixed probe family: return from inside two or three nested loops (with an `if` level in between now and then), called
+            // several times - also from inside a loop of the caller: every call starts every one of its loops afresh
+            let k = 2 + pr.below(2);
+            let mut opened = 0;
+            for lvl in 0..k {
+                prog.push(fline("for", json!("T"), false, 0));
+                opened += 1;
+                if pr.chance(2, 3) { prog.push(fline("emit", json!("T"), false, 0)); }
+                if lvl + 1 < k && pr.chance(1, 3) { prog.push(fline("if", json!("C"), false, 5)); opened += 1; }
+            }
+            prog.push(fline("emit", json!("T"), false, 0));
+            if pr.chance(1, 3) {
+                prog.push(fline("if", json!("C"), false, 5));
+                prog.push(fline("dec", json!("T"), false, 0));
+                prog.push(fline("ret", json!(pr.chance(1, 2)), false, 0));
+                prog.push(fline("end", json!("T"), false, 0));
+            } else {
+                prog.push(fline("ret", json!(pr.chance(1, 2)), false, 0));
+            }
+            for _ in 0..opened {
+                prog.push(fline("end", json!("T"), false, 0));
+                if pr.chance(1, 3) { prog.push(fline("emit", json!("T"), false, 0)); }
+            }
+            prog.push(fline("end", json!("T"), false, 0));
+            fnend = prog.len() - 1;
+            let inloop = pr.chance(1, 2);
+            if inloop { prog.push(fline("for", json!("T"), false, 0)); }
+            for _ in 0..(2 + pr.below(3)) {
+                let o = pr.chance(1, 2);
+                prog.push(fline("call", json!("T"), o, if o && pr.chance(1, 2) { 8 } else { 5 }));
+                if pr.chance(1, 2) { prog.push(fline("emit", json!("T"), false, 0)); }
+            }
+            if inloop { prog.push(fline("end", json!("T"), false, 0)); }
+            prog.push(fline("emit", json!("T"), false, 0));
+        } else {
         let mut budget = 3 + r.below(10) as i64;
         let d = 1 + r.below(4);
         gen_func_block(&mut r, d, &mut budget, &mut prog, true);
         prog.push(fline("end", json!("T"), false, 0));
-        let fnend = prog.len() - 1;
+        fnend = prog.len() - 1;
         let mut budget = 4 + r.below(16) as i64;
         while budget > 0 {
             let d = r.below(4);
             gen_func_block(&mut r, d, &mut budget, &mut prog, false);
+        }
         }
         let text = render_func(&prog, fnend);
         rig.log.borrow_mut().clear();
